@@ -110,6 +110,15 @@ BqUnescape(t, dq) == BqUnescFrom(t, 1, dq)
 
 RawText(r) == Flatten([i \in DOMAIN r |-> Chars(r[i])])
 
+(* 2.6.3: "the search for the matching backquote shall be satisfied by the  *)
+(* first unquoted non-escaped backquote": does the text hold one?           *)
+RECURSIVE BareBackquote(_, _, _)
+BareBackquote(t, i, dq) ==
+  IF i > Len(t) THEN FALSE
+  ELSE IF t[i] = "`" THEN TRUE
+  ELSE IF t[i] = "\\" /\ i < Len(t) /\ t[i + 1] \in BqSpecial(dq) THEN BareBackquote(t, i + 2, dq)
+  ELSE BareBackquote(t, i + 1, dq)
+
 RECURSIVE WText(_, _), BodyText(_), CmdText(_), WordsText(_)
 
 ParText(u, dq) ==
@@ -173,6 +182,41 @@ Text(ctx, w) == Str(WText(w, ctx = "here"))
 (* nested expansions the shell "need not evaluate": open.  With white      *)
 (* space after `$(` there is no ambiguity.                                 *)
 TightOpen(u) == u.f = "par" /\ u.tight /\ u.b # <<>> /\ u.b[1].c = "sub" /\ Len(u.b) = 1
+
+(* the parentheses written in the expression itself must balance, or the   *)
+(* text `$((...))` is not this arithmetic expansion (2.6.3, 2.6.4)          *)
+RECURSIVE ParenOk(_, _, _)
+ParenOk(e, i, d) ==
+  IF i > Len(e) THEN d = 0
+  ELSE IF e[i].t = "lit" /\ e[i].c = "(" THEN ParenOk(e, i + 1, d + 1)
+  ELSE IF e[i].t = "lit" /\ e[i].c = ")" THEN d > 0 /\ ParenOk(e, i + 1, d - 1)
+  ELSE ParenOk(e, i + 1, d)
+
+(* Is the text of the units the text of these units?  (The guards that are *)
+(* syntactic: the shell reads the whole word before it expands any part.)  *)
+(*  - the parentheses of an arithmetic expression balance;                 *)
+(*  - a raw backquote text holds no backquote that would end it;           *)
+(*  - a backquoted command holds no backslash-newline (whether the line    *)
+(*    continuation is removed before or after the command is extracted is  *)
+(*    not settled).                                                        *)
+HasBsNl(t) == \E i \in 1..(Len(t) - 1) : t[i] = "\\" /\ t[i + 1] = "\n"
+RECURSIVE WellFormedW(_, _), WellFormedB(_)
+WellFormedW(us, dq) ==
+  \A i \in DOMAIN us :
+    LET u == us[i] IN
+    CASE u.t = "dq" -> WellFormedW(u.u, TRUE)
+      [] u.t = "par" -> (IF u.m = "sw" THEN WellFormedW(u.w, dq) ELSE IF u.m = "trim" THEN WellFormedW(u.w, FALSE) ELSE TRUE)
+      [] u.t = "ar" -> ParenOk(u.e, 1, 0) /\ WellFormedW(u.e, TRUE)
+      [] u.t = "bqraw" -> ~BareBackquote(RawText(u.r), 1, dq) /\ ~HasBsNl(RawText(u.r))
+      [] u.t = "cs" -> WellFormedB(u.b) /\ (u.f = "bq" => ~HasBsNl(BodyText(u.b)))
+      [] OTHER -> TRUE
+WellFormedB(b) ==
+  \A i \in DOMAIN b :
+    LET c == b[i] IN
+    CASE c.c \in {"put", "echo"} -> \A j \in DOMAIN c.ws : WellFormedW(c.ws[j], FALSE)
+      [] c.c = "asg" -> WellFormedW(c.w, FALSE)
+      [] c.c = "sub" -> WellFormedB(c.b)
+      [] OTHER -> TRUE
 
 ---------------------------------------------------------------------------
 (* Arithmetic: from the expanded text to the value (Arith.tla).            *)
@@ -396,7 +440,8 @@ XCmdSubst(u, st) ==
 
 (* 2.6.4 *)
 XArith(u, st) ==
-  IF \E i \in DOMAIN u.e : u.e[i].t \in {"sq", "dq", "sp"} \/ (u.e[i].t = "lit" /\ u.e[i].c \in {"\"", "'"})
+  IF ~ParenOk(u.e, 1, 0) THEN SkipR(st)
+  ELSE IF \E i \in DOMAIN u.e : u.e[i].t \in {"sq", "dq", "sp"} \/ (u.e[i].t = "lit" /\ u.e[i].c \in {"\"", "'"})
                            \/ (u.e[i].t = "bs" /\ u.e[i].c = "\"")
   THEN SkipR(st)                      \* quotes inside the expression: not settled
   ELSE LET r == WXUnits(u.e, st, TRUE) IN
@@ -422,7 +467,8 @@ WXUnit(u, st, dq) ==
          [] u.t = "cs" -> XCmdSubst(u, st)
          [] u.t = "bqraw" ->
               LET t == BqUnescape(RawText(u.r), dq) IN
-              IF \E i \in DOMAIN t : t[i] = "'" THEN SkipR(st)
+              IF BareBackquote(RawText(u.r), 1, dq) THEN SkipR(st)      \* the text is not one substitution
+              ELSE IF \E i \in DOMAIN t : t[i] = "'" THEN SkipR(st)
               ELSE IF dq /\ \E i \in DOMAIN u.r : u.r[i] = "\"" THEN SkipR(st)    \* an unescaped " : 2.2.3 undefined
               ELSE Res(<<ACs(StripNL(t), "exp")>>, [st EXCEPT !.cs = "0"])
          [] u.t = "ar" -> XArith(u, st)
@@ -551,7 +597,7 @@ HereChars(w, st) ==
 
 Outcome(ctx, w, st0) ==
   LET st == WithCs(st0, "") IN
-  IF AnyAmb(w, st) THEN SkipO(st)
+  IF AnyAmb(w, st) \/ ~WellFormedW(w, ctx = "here") THEN SkipO(st)
   ELSE CASE ctx \in {"arg", "for"} ->
          LET ws == SplitAtBlank(w, 1, <<>>) IN
          IF ws = <<>> THEN SkipO(st) ELSE OfR(WArgs(ws, 1, st), "", TRUE)
@@ -589,11 +635,15 @@ Outcome(ctx, w, st0) ==
          ELSE LET r == OneStr(w, st) IN
               IF r.k = "ok" /\ (r.f[1] \in {"", ".", ".."} \/ \E i \in 1..Len(r.f[1]) : SubSeq(r.f[1], i, i) = "/")
               THEN SkipO(st)
+              ELSE IF r.k \notin {"ok", "skip"} THEN SkipO(st)      \* see "here" below
               ELSE OfR(r, NoNameStatus(r.st), FALSE)
     [] ctx = "here" ->
          LET r == HereChars(w, st) IN
          IF r.k = "skip" THEN SkipO(st)
-         ELSE IF r.k # "ok" THEN Out("err", <<>>, r.st, "", FALSE)
+         \* an expansion error inside a redirection: 2.8.1 lists "expansion error" (shall exit) and
+         \* "redirection error" (shall not exit, for a regular utility); which one applies is not
+         \* settled (termination.md has both rows too): open
+         ELSE IF r.k # "ok" THEN SkipO(st)
          ELSE Out("ok", <<Str(r.t)>>, r.st, "", FALSE)
 
 (* does an observation [k, f, x, y, ifs, q] agree with an outcome? *)
